@@ -106,6 +106,11 @@ struct Handle {
 }
 
 fn seek_target(rng: &mut Rng) -> u64 {
+    // every carry position of the 32-bit counter: 2^k - d
+    if rng.chance(1, 8) {
+        let k = rng.range(1, 31);
+        return (1u64 << k) - rng.below(3);
+    }
     match rng.below(10) {
         0 => 0,
         1 => 1,
